@@ -557,6 +557,15 @@ package jd
 //@   ensures_bounded ret0 != 2 && ret0 != 3
 //@   carries C08
 
+//@ contract verifKeyedMembers
+//@   bounded
+//@   universe target verifKeyedTargets(TIER)
+//@   universe pathKeys verifKeyedPaths()
+//@   universe newV []JsonNode{jsonNumber(7), jsonObject{}}
+//@   requires validNodes(target) && validObject(pathKeys) && validNode(newV)
+//@   ensures_bounded ret0 == 0
+//@   carries C08
+
 // Process-level stand-ins for the CLI (C14 / C13): the verifier builds both binaries from the
 // working tree and exports their paths before running these.
 //@ contract verifCLICheck
